@@ -23,7 +23,10 @@ func chainOpts(c ChainOp) []z.TestOption {
 	if c.Path != "" {
 		o = append(o, z.IssuePath(c.Path))
 	}
-	if c.Msg != "" {
+	if c.Msg == "MF" {
+		// a MessageFunc that leaves the message alone (e.g. it only translates for some languages): the default message applies
+		o = append(o, z.MessageFunc(func(e *z.ZogIssue, ctx z.Ctx) {}))
+	} else if c.Msg != "" {
 		o = append(o, z.Message(c.Msg))
 	}
 	return o
@@ -59,6 +62,12 @@ func (b *builder) buildChain(c *Case) z.ZogSchema {
 					target.Len(op.N, o...)
 				case "has":
 					target.Contains(strings.Repeat("x", op.N), o...)
+				case "upper":
+					target.ContainsUpper(o...)
+				case "special":
+					target.ContainsSpecial(o...)
+				case "pre":
+					target.HasPrefix(strings.Repeat("x", op.N), o...)
 				case "min":
 					s.Min(op.N, o...)
 				default:
